@@ -119,6 +119,23 @@ def _check_trade(S, w, side, levels0, cash0, pos0, else0, frame0, n_req, orders,
     return n, premium
 
 
+def _fillable(S, amount, usable, levels0, cash, held):
+    """sufficient conditions under which the statement's order must be filled: open market and instrument, at least one contract,
+    the usable levels hold the (rounded) amount, and — buy — the cash covers it at the worst displayed price plus the 12.5 % fee cap,
+    — sell — the contracts are held"""
+    sh = S.shape
+    if sh.get("state", "open") != "open" or sh.get("ts", "open") != "open":
+        return False
+    n = max(half_up(amount), 1)
+    ok = amount >= 1 and n <= sum([Decimal(str(lv[1])) for lv in usable])
+    if cash is not None:
+        worst = max([Decimal(str(lv[0])) for lv in levels0]) if len(levels0) else 0
+        ok = ok and n * worst * Decimal("1.13") + Decimal("0.000002") <= cash        # 12.5 % fee cap, rounded up to the 1e-6 fee step
+    if held is not None:
+        ok = ok and n <= held
+    return ok
+
+
 def _pos(m):
     p = m.positions.get("I0")
     if p is None:
@@ -139,6 +156,7 @@ def po_buy(S):
         orders, fee = m.buy("I0", amount)
     except REJECT:
         S.cover("rejected")
+        S.check("an-affordable-order-the-asks-can-fill-is-not-rejected", not _fillable(S, amount, levels0, levels0, cash0, None))
         return
     S.cover("accepted")
     n, premium = _check_trade(S, w, "buy", levels0, cash0, pos0, else0, frame0, amount, orders, fee)
@@ -165,6 +183,7 @@ def po_sell(S):
     except REJECT:
         S.cover("rejected")
         S.check("rejected-sale-pays-nothing", m.balance == cash0)
+        S.check("a-sale-of-held-contracts-the-bids-can-absorb-is-not-rejected", not _fillable(S, amount, levels0, levels0, None, pos0[0]))
         return
     S.cover("accepted")
     n, premium = _check_trade(S, w, "sell", levels0, cash0, pos0, else0, frame0, amount, orders, fee)
@@ -242,6 +261,8 @@ def po_cap(S):
         else:
             orders, fee = m.sell("I0", amount, None, None, k)
     except REJECT:
+        inside = [lv for lv in levels0 if ((lv[0] < k * mark) if is_buy else (lv[0] > mark / k))]
+        S.check("an-order-the-levels-inside-the-cap-can-fill-is-not-rejected", not _fillable(S, amount, inside, levels0, cash0 if is_buy else None, None if is_buy else pos0[0]))
         return
     S.cover("accepted")
     eligible = [(lv[0] < k * mark) if is_buy else (lv[0] > mark / k) for lv in levels0]
